@@ -41,7 +41,9 @@ func c16Exec(w *rnsWorld, s c16Step) c16Out {
 		w.f.SetBlock(s.Height, w.f.Time().Add(6*time.Second))
 	}
 	h := w.f.Height()
-	key, okKey := canonKey(s.Name)
+	// the registration handler lower-cases the name and drops blanks before it splits off the TLD: that spelling is the
+	// name that gets registered, and its length is the length the price list is about
+	key, okKey := canonKey(strings.ReplaceAll(s.Name, " ", ""))
 	before := w.names()
 	prev, found := before[key]
 	msg := rnstypes.NewMsgRegisterName(acc.Bech, s.Name, s.Years, "{}", false)
@@ -173,7 +175,10 @@ func genC16Name(rt *rapid.T) string {
 		}
 	}
 	tld := rapid.SampledFrom([]string{"jkl", "ibc"}).Draw(rt, "tld")
-	sep := rapid.SampledFrom([]string{".", ".", ".", "x"}).Draw(rt, "sep")
+	sep := rapid.SampledFrom([]string{".", ".", ".", "x", " ", "_"}).Draw(rt, "sep")
+	if rapid.IntRange(0, 9).Draw(rt, "innerBlank") == 0 && n >= 2 { // a blank inside the name part
+		name = name[:1] + " " + name[1:]
+	}
 	return name + sep + tld
 }
 
